@@ -564,7 +564,11 @@ for _patch, _props in (('refactors/R3/patch.diff', ('C04', 'C05', 'C06', 'C07', 
                        ('refactors/R7/patch.diff', ('C01', 'C08', 'C09', 'C17', 'C19')),
                        ('refactors/R8/patch.diff', ('C18',)),      # harmless twin of seed C18b (perturbation helper without the clamp)
                        ('refactors/R9/patch.diff', ('C15',)),
-                       ('refactors/R10/patch.diff', ('C15', 'C16'))):    # harmless twin of seed C16c (prior spec looked up once per parameter)     # harmless twin of seed C15b (columns by list indexing, not by mask)
+                       ('refactors/R10/patch.diff', ('C15', 'C16')),
+                       ('refactors/R11/patch.diff', ('C12', 'C13', 'C14', 'C15', 'C16', 'C18')),
+                       ('refactors/R12/patch.diff', ('C03', 'C04', 'C05', 'C06', 'C07', 'C08', 'C09', 'C10', 'C11', 'C18', 'C20')),
+                       ('refactors/R13/patch.diff', ('C01', 'C02', 'C04', 'C05', 'C06', 'C08', 'C09', 'C10', 'C11', 'C17')),
+                       ('refactors/R14/patch.diff', ('C09', 'C15', 'C17', 'C19'))):    # harmless twin of seed C16c (prior spec looked up once per parameter)     # harmless twin of seed C15b (columns by list indexing, not by mask)
     for _p in _props:
         MUTANTS.append({'prop': _p, 'name': 'refactor-' + _patch.split('/')[1], 'kind': 'silent', 'patch': _patch})
 M('C06', 'revert-sentinel-slot', S, "empty_array = -np.ones((self.num_reactions, self.num_species + 1, 2), dtype = np.int32)", "empty_array = -np.ones((self.num_reactions, self.num_species, 2), dtype = np.int32)", 'fire', 'R6.4-safe-sentinel/SafeModelCSimInterface')
@@ -611,3 +615,7 @@ M('C12', 'settings-local-variable', SB, "    math_ast = libsbml.parseL3FormulaWi
   "    l3 = libsbml.L3ParserSettings()\n    l3.setParseLog(libsbml.L3P_PARSE_LOG_AS_LN)\n    math_ast = libsbml.parseL3FormulaWithSettings(ratestring, l3)\n", 'silent')
 M('C14', 'settings-local-variable', SB, "    math_ast = libsbml.parseL3FormulaWithSettings(ratestring, _L3_PARSER_SETTINGS)\n",
   "    l3 = libsbml.L3ParserSettings()\n    l3.setParseLog(libsbml.L3P_PARSE_LOG_AS_LN)\n    math_ast = libsbml.parseL3FormulaWithSettings(ratestring, l3)\n", 'silent')
+M('C09', 'lineage-lambda-before-propensities', L,
+  "\t\t\tself.interface.compute_lineage_propensities(&self.c_current_state[0], &self.c_propensity[0], current_volume, current_time)\n\n\t\t\tLambda = cyrandom.array_sum(&self.c_propensity[0], self.num_propensities)\n",
+  "\t\t\tLambda = cyrandom.array_sum(&self.c_propensity[0], self.num_propensities)\n\t\t\tself.interface.compute_lineage_propensities(&self.c_current_state[0], &self.c_propensity[0], current_volume, current_time)\n\n",
+  'fire', 'R9.3-rates-after-rules/Lineage')
